@@ -14,6 +14,7 @@ ANCHORS = ["src/tickit/core/management/schedulers/master.py", "src/tickit/core/m
            "src/tickit/core/components/system_component.py", "src/tickit/core/management/ticker.py"]
 TECHNIQUE = 'Lean 4 theorems over the whole-simulation model with nested schedulers at any depth (loop invariant for the level tick + induction on nesting depth: every device updated exactly once at t0) + trace validation of real initial ticks over hand-written and generated nestings'
 LEVEL_TEXT = "Full-strength theorems over the executable whole-simulation model (master + nested schedulers at unbounded depth, devices as oracles): if the initial tick completes, every device at every depth - fed from outside its system or not - has been updated exactly once, at the initial time, nothing else was updated, and every nested scheduler has done its own initial tick; a tick of any level updates each device below it at most once, all at the tick's time. Dependency order and 'initial outputs reach everything wired, also across exposed ports, in the same tick' are carried by C01/C03 theorems for one level and by trace validation across levels. Tie to the code: the model's initial tick is compared observation by observation with the real initial tick of 4 shapes named by the property and of generated nestings (depth <= 3) under the synchronous and a delaying bus, with direct monitors (once, at t0, before any other tick, in dependency order, inputs = upstream initial outputs). FOR ANY ANSWER ORDER AT EVERY NESTING LEVEL (every scheduler level answers its pending dispatches in ANY order, a system component's answer is any such execution of its inner level; Core/SimAny; none of these corollaries assumes that the first-in first-out model succeeds - that follows from the existence of the execution) (Props/AnyTransfer): in every execution of the initial tick of a valid configuration every device at every depth is observed exactly once, at the initial time, nothing else is updated and every system scheduler has done its first tick (any_order_initial_tick_complete); every observation a tick appends carries that tick's time (any_order_tick_one_time)."
+LEVEL_ADDENDUM = "Session 8: a configuration FILE of shipped devices (and one generated scenario in three) is built by tickit's own build_simulation undivided and DIVIDED over 2-7 simulations that share the in-process state interface (scheduler here, components there, components_to_run; three start orders): every device at every depth is updated once at the initial time with the same inputs wherever it is hosted."
 LEVEL_NOTE = 'Trusts: Lean kernel; hand-written whole-simulation model (tied by trace validation on every run); the model answers pending dispatches first-in-first-out (other orders: C01/C08).'
 ASSUMPTIONS = ["valid configurations: unique names different from 'external'/'expose', wires name existing components, acyclic at every level"]
 
